@@ -16,6 +16,7 @@ import (
 	"github.com/brewlin/net-protocol/protocol/ports"
 	"verifh/fw"
 	"verifh/hist"
+	"verifh/vt"
 )
 
 var (
@@ -379,6 +380,17 @@ func TestC10(t *testing.T) {
 	log.SetOutput(io.Discard)
 	run = fw.Start("C10", "exploration")
 	rand.Seed(run.Seed)
+	if fw.IsChild() && os.Getenv("VERIF_PHASE") == "endpoints" { // virtual-time build: socket life cycles
+		var lo, hi int
+		fmt.Sscan(os.Getenv("VERIF_RANGE"), &lo, &hi)
+		vt.Bubble(t, func() {
+			for k := lo; k < hi && run.Violations() < 4; k++ {
+				endpointScenario(k)
+			}
+			os.Exit(run.Finish("", nil))
+		})
+		return
+	}
 	if fw.IsChild() { // the -race build runs the concurrent phase
 		concurrent()
 		os.Exit(run.Finish("", nil))
@@ -389,7 +401,21 @@ func TestC10(t *testing.T) {
 	if !res.Done {
 		run.ChildCrashed(res, "C10/concurrent", "concurrent phase")
 	}
-	code := run.Finish("sequential: PRNG op sequences (<=40 ops) over 2 networks x 2 transports x {wildcard,a,b} x 3 ports, reference table in lock-step after every op and a full availability sweep at the end; concurrent: 2-8 goroutines x 4-7 ops on 1-2 ports, history checked by porcupine (partitioned by transport/port), non-trivial = at least one pair of overlapping ops, distinct = distinct call/return interleaving signatures; ephemeral: the acceptable port is chosen after the first probe is seen (just before / two before / just after the start, last, first, random, start, none), so every call forces a known fraction of a full cycle from the random offset; plus ReservePort(0) against a table with 1-2 free ports",
+	var wg sync.WaitGroup
+	nep := fw.N(1600, 80000)
+	for c := 0; c < 8; c++ {
+		c := c
+		wg.Add(1)
+		go func() {
+			defer wg.Done()
+			res := run.RunChild(fw.ChildSpec{Bin: os.Getenv("VERIF_BIN_VT"), Test: "^TestC10$", Tag: fmt.Sprintf("ep%d", c), Env: []string{"VERIF_PHASE=endpoints", fmt.Sprintf("VERIF_RANGE=%d %d", nep*c/8, nep*(c+1)/8)}})
+			if !res.Done {
+				run.ChildCrashed(res, "C10/endpoints", c)
+			}
+		}()
+	}
+	wg.Wait()
+	code := run.Finish("sequential: PRNG op sequences (<=40 ops) over 2 networks x 2 transports x {wildcard,a,b} x 3 ports, reference table in lock-step after every op and a full availability sweep at the end; concurrent: 2-8 goroutines x 4-7 ops on 1-2 ports, history checked by porcupine (partitioned by transport/port), non-trivial = at least one pair of overlapping ops, distinct = distinct call/return interleaving signatures; ephemeral: the acceptable port is chosen after the first probe is seen (just before / two before / just after the start, last, first, random, start, none), so every call forces a known fraction of a full cycle from the random offset; plus ReservePort(0) against a table with 1-2 free ports; endpoints (virtual time): TCP and UDP sockets of all families (IPv4, IPv6-only, dual-stack) are bound (wildcard, specific, ephemeral), connected to IPv4 / IPv6 / v4-mapped peers, listened on and closed in PRNG order: two live never-connected sockets with conflicting reservations cannot both have been bound, and once every socket is closed (plus three virtual minutes) every port ever used can be bound again on every transport and family",
 		[]string{"reference: 6-bit (network x address) set per (transport, port) (h/c10)", "logical clock for call/return stamps: one atomic counter (h/hist)", "release of an entry nobody holds is modelled as a no-op"})
 	os.Exit(code)
 }
